@@ -2,7 +2,7 @@
 
 Space (every member is executed on the real ColorsConfig / Palette machinery):
   description sets : every acyclic assignment of menu entries to the ids of a family (2, 3 or 4 ids, one of
-                     them spelled "T.D" = nested {"T": {"D": ..}}); menu = 7 parentless forms + 12 forms
+                     them spelled "T.U.D" = three nested levels {"T": {"U": {"D": ..}}}, with 3-4 ids also "T.D"); menu = 7 parentless forms + 12 forms
                      referring to a parent P, P over the other ids, a never-registered id and (full menu)
                      a built-in id.  The menu strings carry their intended meaning, so the package's
                      description parser is under test as well.
@@ -49,7 +49,10 @@ REQUIRED_FEATURES = ["pending-then-resolved", "unknown-parent-stays-uncolored", 
                      "mode:no_color", "mode:standalone", "batched-registration", "chain-depth>=2",
                      "builtin-parent", "modifier-overridden", "mech:palette-ctor", "mech:register",
                      "mech:add_new_items", "mech:parents", "all-explicit", "none-explicit", "text-colored",
-                     "color-id-0", "color-id-0-overrides-parent-color"]
+                     "color-id-0", "color-id-0-overrides-parent-color",
+                     "nested:three-levels-explicit", "nested:three-levels-component",
+                     "flat:three-levels-explicit", "flat:three-levels-component",
+                     "nested:three-levels-explicit-beats-default"]
 
 INH, DFL = R.INHERIT, R.DEFAULT
 UNKNOWN = "U"
@@ -88,8 +91,9 @@ BUILTIN_DESCRS = {"TEXT": R.Descr(None, INH, INH, {}, "builtin"),
 # the default text syntax given a color by the explicit configuration (mode "standalone-text")
 TEXT_COLORED = ("MAGENTA:blink", R.Descr(None, "MAGENTA", INH, {"blink": True}, "text"))
 
-FAMILY_IDS = {2: ["A", "T.D"], 3: ["A", "B", "T.D"], 4: ["A", "B", "C", "T.D"]}
-ACCESSOR = {"A": "a", "B": "b", "C": "c", "T.D": "td"}
+# "T.D" = nested {"T": {"D": ..}};  "T.U.D" = three levels {"T": {"U": {"D": ..}}} (sharing the group "T")
+FAMILY_IDS = {2: ["A", "T.U.D"], 3: ["A", "T.D", "T.U.D"], 4: ["A", "B", "T.D", "T.U.D"]}
+ACCESSOR = {"A": "a", "B": "b", "T.D": "td", "T.U.D": "tud"}
 
 
 def menu(sid, ids, reduced, with_builtin, with_unknown=True):
@@ -123,7 +127,8 @@ def semantics(string):
 
 CONFLICT_LOSERS = [("CYAN:blink", R.Descr(None, "CYAN", INH, {"blink": True}, "loser")),
                    ("A:underline", R.Descr("A", INH, INH, {"underline": True}, "loser")),
-                   ("T.D:underline", R.Descr("T.D", INH, INH, {"underline": True}, "loser"))]
+                   ("T.D:underline", R.Descr("T.D", INH, INH, {"underline": True}, "loser")),
+                   ("T.U.D:underline", R.Descr("T.U.D", INH, INH, {"underline": True}, "loser"))]
 
 
 # ------------------------------------------------------------------------------------------------ palettes
@@ -268,11 +273,11 @@ def spell(items, spelling):
         return dict(items)
     out = {}
     for k, v in items.items():
-        if "." in k:
-            a, b = k.split(".", 1)
-            out.setdefault(a, {})[b] = v
-        else:
-            out[k] = v
+        parts = k.split(".")
+        d = out
+        for grp in parts[:-1]:
+            d = d.setdefault(grp, {})
+        d[parts[-1]] = v
     return out
 
 
@@ -487,7 +492,7 @@ def measure_features(n, sem, explicit, batches, feats):
 
 
 # ------------------------------------------------------------------------------------------------ classification
-def classify(pr, n, strs, sem, registered_ids):
+def classify(pr, n, strs, sem, registered_ids, spelling="flat"):
     """Signature of a Problem, computed from the failing case."""
     if pr.kind in ("no_color-has-effects", "malformed"):
         return pr.kind
@@ -495,9 +500,9 @@ def classify(pr, n, strs, sem, registered_ids):
         return "palette-view-differs:" + pr.view.split(".")[0]     # which view: palette-class, synced-palette, ...
     flat = {i: strs[i] for i in registered_ids}
 
-    def single_shot(items):
+    def single_shot(items, sp="flat"):
         try:
-            c = impl.ColorsConfig(dict(items))
+            c = impl.ColorsConfig(spell(items, sp))
         except Exception as e:  # noqa
             return "raises-" + type(e).__name__
         for sid in items:
@@ -516,6 +521,9 @@ def classify(pr, n, strs, sem, registered_ids):
         return out
 
     whole = single_shot(flat)
+    if whole == "ok" and spelling == "nested" and single_shot(flat, "nested") != "ok":
+        levels = max(i.count(".") + 1 for i in flat)
+        return f"nested-spelling-differs-from-flat:{levels}-levels"
     suffix = ":order-dependent" if whole == "ok" else ""
     if "raises" in pr.kind:
         for sid in sorted(flat, key=lambda i: len(chain(i))):
@@ -529,6 +537,13 @@ def classify(pr, n, strs, sem, registered_ids):
 # ------------------------------------------------------------------------------------------------ driver
 def run_one(n, strs, sem, explicit, batches, conflict, spelling, mech, mode, acc, sample=False):
     feats = {"spelling:" + spelling, "mode:" + mode.split("-")[0], "mech:" + mech}
+    sp = "flat" if mech == "add_new_items" else spelling
+    if any(i.count(".") >= 2 for i in explicit):
+        feats.add(spelling + ":three-levels-explicit")
+        if conflict is not None and conflict[0].count(".") >= 2 and spelling == "nested":
+            feats.add("nested:three-levels-explicit-beats-default")
+    if any(i.count(".") >= 2 for b in batches for i in b):
+        feats.add(sp + ":three-levels-component")
     pending = measure_features(n, sem, explicit, batches, feats)
     case = None
     outcome = "ok"
@@ -540,7 +555,7 @@ def run_one(n, strs, sem, explicit, batches, conflict, spelling, mech, mode, acc
             done += b
         if mech == "parents":
             done = list(explicit) + [i for b in batches for i in b]
-        sig = classify(pr, n, strs, sem, done)
+        sig = classify(pr, n, strs, sem, done, "flat" if mech == "add_new_items" else spelling)
         case = mk_case(n, strs, explicit, batches, conflict, spelling, mech, mode)
         acc.violation("C14:" + sig, case, pr.msg, {"step": pr.step, "id": pr.sid, "view": pr.view, "observed": pr.obs},
                       pr.exp)
@@ -608,7 +623,8 @@ def selftest():
     assert len(scenarios(2)) == 6 and len(scenarios(3)) == 26 and len(scenarios(4)) == 150
     # expectations of tests/test_color.py::test_register_palette_user through the harness
     acc = core.Acc()
-    strs = {"A": "T.D", "T.D": "RED"}
+    assert spell({"A": "x", "T.D": "y", "T.U.D": "z"}, "nested") == {"A": "x", "T": {"D": "y", "U": {"D": "z"}}}
+    strs = {"A": "T.U.D", "T.U.D": "RED"}
     sem = {i: semantics(s) for i, s in strs.items()}
-    run_one(2, strs, sem, ["A"], [["T.D"]], None, "nested", "palette-ctor", "standalone", acc)
+    run_one(2, strs, sem, ["A"], [["T.U.D"]], None, "nested", "palette-ctor", "standalone", acc)
     assert not acc.violations, acc.violations
